@@ -82,7 +82,13 @@ func genOp(t *rapid.T, label string, maxSeg int64, purge bool) op {
 	case k < 14:
 		return op{Kind: "send"}
 	case k < 15:
-		return op{Kind: "current"}
+		if rapid.IntRange(0, 2).Draw(t, label+".hk") == 0 {
+			return op{Kind: "current"}
+		}
+		if rapid.Bool().Draw(t, label+".hr") {
+			return op{Kind: "hold"} // nine more writers enter Append: appends are buffered from now on
+		}
+		return op{Kind: "release"}
 	case k < 16:
 		return op{Kind: "setmax", Max: rapid.Int64Range(24, 400).Draw(t, label+".max")}
 	case k < 18:
@@ -151,6 +157,9 @@ type block struct {
 	id       int
 	data     []byte
 	appended time.Time
+	// buffered: acknowledged on the buffered path (ten or more writers inside
+	// Append) and not known to have been flushed to the segment file yet
+	buffered bool
 }
 
 type qmodel struct {
@@ -444,6 +453,14 @@ func (r *qrunner) phase(dir string, depth int, m *qmodel, recovered *qimage, lab
 						run.Probe("inflight-advance-persisted")
 						continue
 					}
+					if recovered != nil && m.all[j].buffered {
+						// acknowledged on the buffered path, still in memory at the crash
+						fail("block-lost-after-crash", "acknowledged-on-buffered-path-not-yet-flushed", "%s op%d: block #%d had been acknowledged while ten or more writers were inside Append (buffered path) and was not flushed at the crash", label, i, m.all[j].id)
+						if run.Failed() {
+							return false
+						}
+						continue
+					}
 					if !m.droppable(m.all[j]) {
 						fail("block-lost", "", "%s op%d: block #%d (%d bytes, accepted earlier) was skipped: block #%d delivered first and no documented discard reason applies", label, i, m.all[j].id, len(m.all[j].data), m.all[idx].id)
 						return false
@@ -473,6 +490,23 @@ func (r *qrunner) phase(dir string, depth int, m *qmodel, recovered *qimage, lab
 		}
 		return n
 	}
+	// pendingReadable: pending blocks a reader can be expected to see now
+	// (blocks still in the write buffer are not in the file yet)
+	pendingReadable := func() int {
+		n := 0
+		for j := m.head; j < len(m.all); j++ {
+			if !m.droppable(m.all[j]) && !m.all[j].buffered {
+				n++
+			}
+		}
+		return n
+	}
+	flushedAll := func() {
+		for j := range m.all {
+			m.all[j].buffered = false
+		}
+	}
+	held := 0
 	checkEmpty := func(i int, after string) {
 		if run.Failed() {
 			return
@@ -498,11 +532,20 @@ func (r *qrunner) phase(dir string, depth int, m *qmodel, recovered *qimage, lab
 			}
 			maybeAdv = false
 		}
-		if maybeAdv && m.head < len(m.all) && pendingMust() == 1 && len(m.all)-m.head == 1 {
+		if maybeAdv && m.head < len(m.all) && !m.all[m.head].buffered && pendingReadable() == 1 {
+			// (blocks behind it that were only in the write buffer are judged below)
+			m.head++
+		} else if maybeAdv && m.head < len(m.all) && pendingMust() == 1 && len(m.all)-m.head == 1 {
 			// only the block whose Advance was in flight remained and it was consumed
 			m.head++
 		}
 		maybeAdv = false
+		if !run.Failed() && pendingMust() > 0 && pendingReadable() == 0 {
+			// everything missing had been acknowledged on the buffered path
+			// and was still in memory at the crash
+			fail("block-lost-after-crash", "acknowledged-on-buffered-path-not-yet-flushed", "%s: after restart %d accepted blocks are gone; all of them were acknowledged while ten or more writers were inside Append (buffered path) and had not been flushed at the crash", label, pendingMust())
+			return
+		}
 		if !run.Failed() && pendingMust() > 0 {
 			fail("block-lost-after-crash", recovered.inflightKind, "%s: after restart the queue stops delivering with %d accepted blocks still undelivered (in flight at the crash: %s)", label, pendingMust(), recovered.inflightKind)
 			return
@@ -528,10 +571,17 @@ func (r *qrunner) phase(dir string, depth int, m *qmodel, recovered *qimage, lab
 			r.next++
 			b := block{id: r.next, data: mkBlock(r.next, o.Size), appended: time.Now()}
 			curApp, curKind = &b, "append"
+			bufferedPath := q.LimiterLen() >= 9 // with this writer: ten inside Append
 			err := q.Append(b.data)
 			curApp, curKind = nil, ""
 			switch {
 			case err == nil:
+				if bufferedPath {
+					b.buffered = true
+					run.Probe("append-on-buffered-path")
+				} else {
+					flushedAll() // an unbuffered append writes the whole buffer out
+				}
 				m.all = append(m.all, b)
 				m.written += int64(len(b.data)) + 8
 				run.Probe("append-accepted")
@@ -557,13 +607,13 @@ func (r *qrunner) phase(dir string, depth int, m *qmodel, recovered *qimage, lab
 		case "send":
 			pend := len(m.all) - m.head
 			ok := deliver(i, false, nil)
-			if !ok && !run.Failed() && pendingMust() > 0 {
+			if !ok && !run.Failed() && pendingReadable() > 0 {
 				fail("pending-block-not-delivered", "", "%s op%d: %d blocks pending but one send attempt per segment (+3) delivered nothing", label, i, pend)
 			}
 			checkEmpty(i, "advance")
 		case "current":
 			b, err := q.Current()
-			if err == nil && m.head < len(m.all) && !bytes.Equal(b, m.all[m.head].data) && pendingMust() == len(m.all)-m.head {
+			if err == nil && m.head < len(m.all) && !m.all[m.head].buffered && !bytes.Equal(b, m.all[m.head].data) && pendingMust() == len(m.all)-m.head {
 				fail("current-not-head", "", "%s op%d: Current returned a block that is not the oldest pending one", label, i)
 			}
 			checkEmpty(i, "current")
@@ -595,10 +645,28 @@ func (r *qrunner) phase(dir string, depth int, m *qmodel, recovered *qimage, lab
 			checkEmpty(i, "purge")
 		case "sleep":
 			time.Sleep(time.Duration(o.Age) * time.Second)
+		case "hold":
+			if held == 0 {
+				held = q.TakeTokens(9)
+			}
+		case "release":
+			q.ReleaseTokens(held)
+			held = 0
 		case "reopen":
+			if held > 0 {
+				q.ReleaseTokens(held)
+				held = 0
+			}
 			if err := q.Close(); err != nil {
 				fail("close-failed", "", "%s op%d: Close: %v", label, i, err)
 			}
+			// a clean close keeps what was acknowledged, buffered or not
+			for j := m.head; j < len(m.all); j++ {
+				if m.all[j].buffered {
+					run.Probe("close-with-buffered-blocks")
+				}
+			}
+			flushedAll()
 			curKind = "open"
 			q = open()
 			curKind = ""
@@ -902,7 +970,7 @@ func TestC04(t *testing.T) {
 		Bubble:         true,
 		Describe:       describe,
 		Tier:           "A",
-		RequiredProbes: []string{"image-drained", "append-accepted", "reopen", "all-delivered", "crash-after-head-trim", "write-in-empty-window"},
+		RequiredProbes: []string{"image-drained", "append-accepted", "reopen", "all-delivered", "crash-after-head-trim", "write-in-empty-window", "append-on-buffered-path", "close-with-buffered-blocks"},
 		Real:           []string{"hh.queue, hh.segment (append/flush/advance/truncate/trimHead/PurgeOlderThan)", "hh.NodeProcessor (WriteShard, run loop, SendWrite, back-off)", "pkg/limiter"},
 		Stub:           []string{"target node (WriteShardBinary outcomes scripted)", "meta client (DataNode present/removed)"},
 		Assumptions: []string{
